@@ -628,7 +628,7 @@ func permutePairs(t *rapid.T, root *icbor.Node) {
 
 func TestC04_Product(t *testing.T) {
 	st := NewStats("C04", "TestC04_Product", "rapid: a model claims-set of profile 1 or 2 with 0..4 rule-level deviations (generator of C01) is encoded by the independent encoder; then 0..3 wire-level mutations hit random known keys or component fields: null / undefined, a value of every other major type (incl. array-of-uints spelling the bytes, bstr<->tstr look-alikes, floats 1.0/NaN/12288.0), out-of-width integers (2^16, 2^31, -2^31-1, 2^32, 2^63, 2^64-1, -2^64), tags, indefinite-length strings/arrays/maps, non-preferred head widths, duplicate keys; plus key permutation, 0..3 unknown extra keys (int, negative, huge, text; the other profile's keys), one-element nonce arrays, indefinite / long-head top-level map, the other profile's complete key set mixed in. Oracle: decode-and-validate accepts iff model valid and no non-conformant wire form; accepted tokens return exactly the wire values from every getter (components in order, optional fields intact); encodings the specifications leave open (tags, duplicate keys, one-element nonce array, flag != 1, non-preferred heads) get no accept/reject verdict. Non-trivial = at least one key in a non-default class; distinct = class vector + wire mutations + key-order hash")
-	st.Require = []string{"accepted", "rejected", "open-accepted", "P1", "P2", "wire=null", "wire=wrongtype", "wire=outofwidth", "wire=indefinite", "wire=tagged", "wire=dupkey", "wire=longhead", "extra-keys", "mixed-profile-keys", "component-field"}
+	st.Require = []string{"accepted", "rejected", "open-accepted", "P1", "P2", "wire=null", "wire=wrongtype", "wire=outofwidth", "wire=indefinite", "wire=tagged", "wire=dupkey", "wire=longhead", "extra-keys", "mixed-profile-keys", "component-field", "wire=p1-with-nontext-265"}
 	defer st.Flush(t)
 	rapid.Check(t, func(t *rapid.T) {
 		p := drawProf(t)
@@ -722,6 +722,13 @@ func TestC04_Product(t *testing.T) {
 				root.Pairs = append(root.Pairs, pr)
 			}
 			cls = append(cls, "mixed-profile-keys")
+		case 7, 8: // a profile-1 token that also carries key 265 with an item of the wrong type
+			if p == P1 && slotOf(p, root, wtarget{comp: -1, key: 265}) == nil {
+				v := rapid.SampledFrom([]*icbor.Node{icbor.U(5), icbor.I(-1), icbor.Bstr([]byte(P1Name)), icbor.Bstr(nil), icbor.Arr(), icbor.Arr(icbor.Tstr(P1Name)), icbor.Map(), icbor.Bool(true), icbor.Bool(false), icbor.F64(1), icbor.Simple(0)}).Draw(t, "p1.265")
+				root.Pairs = append(root.Pairs, icbor.P(icbor.U(265), v))
+				muts = append(muts, wmut{"265", "wrongtype:" + truncate(icbor.Diag(v), 24), effNonConf, ""})
+				cls = append(cls, "wire=p1-with-nontext-265")
+			}
 		case 6: // explicit empty list next to the flag (profile 1): open
 			if p == P1 && len(m.Comps) == 0 && slotOf(p, root, wtarget{comp: -1, key: -75006}) == nil {
 				root.Pairs = append(root.Pairs, icbor.P(icbor.I(-75006), icbor.Arr()))
